@@ -585,6 +585,72 @@ def declReg (decls : List (List Char)) (t : Ty) (name : List Char) : Verdict :=
   | none => .err E_reg_type
   | some _ => createReg decls name
 
+/-! ### global variables tied to hard registers (`MIR_new_global_func_reg`), x86-64 target
+
+`create_func_reg` keeps, per function, a table from hard register name to the first variable tied to
+it: a second variable tied to the same hard register must have the same type and then *shares* the
+register number of the first (its own name is not entered); with a different type it is a repeated
+declaration. -/
+
+/-- `target_hard_reg_names` of mir-x86_64.h, index = hard register number -/
+def hardRegNames : List String :=
+  ["rax", "rcx", "rdx", "rbx", "rsp", "rbp", "rsi", "rdi", "r8", "r9", "r10", "r11", "r12", "r13", "r14",
+   "r15", "xmm0", "xmm1", "xmm2", "xmm3", "xmm4", "xmm5", "xmm6", "xmm7", "xmm8", "xmm9", "xmm10",
+   "xmm11", "xmm12", "xmm13", "xmm14", "xmm15", "st0", "st1"]
+
+/-- `_MIR_get_hard_reg` -/
+def hardRegIndex (h : List Char) : Option Nat :=
+  let i := hardRegNames.findIdx (fun n => n.toList == h)
+  if i < hardRegNames.length then some i else none
+
+/-- `target_hard_reg_type_ok_p`: integer registers below xmm0, f/d from xmm0 up, never long double -/
+def hardRegTypeOk (i : Nat) (t : RegTy) : Bool :=
+  match t with
+  | .ld => false
+  | .i64 => i < 16
+  | _ => i ≥ 16
+
+/-- `target_fixed_hard_reg_p`: rsp, rbp, r10, r11, xmm8, xmm9, st0, st1 -/
+def hardRegFixed (i : Nat) : Bool := [4, 5, 10, 11, 24, 25, 32, 33].contains i
+
+/-- a declared register of the current function -/
+structure RegD where
+  name : List Char
+  ty : RegTy
+  reg : Nat
+  hard : Option (List Char)
+  deriving Repr, Inhabited
+
+/-- outcome of a declaration: verdict, register number returned, new table -/
+structure DeclRes where
+  v : Verdict
+  reg : Nat
+  ds : List RegD
+  deriving Repr, Inhabited
+
+/-- `MIR_new_func_reg` / `MIR_new_global_func_reg` on the table `ds` of the current function
+(`hard = none`: a local; register numbers are handed out consecutively from 1) -/
+def declRegD (ds : List RegD) (t : Ty) (name : List Char) (hard : Option (List Char)) : DeclRes :=
+  match regTyOfCode t with
+  | none => ⟨.err E_reg_type, 0, ds⟩
+  | some rt =>
+    if reservedName name then ⟨.err E_reserved_name, 0, ds⟩
+    else if ds.any (fun d => d.name == name) then ⟨.err E_repeated_decl, 0, ds⟩
+    else
+      let fresh : DeclRes := ⟨.ok, ds.length + 1, ds ++ [⟨name, rt, ds.length + 1, hard⟩]⟩
+      match hard with
+      | none => fresh
+      | some h =>
+        match hardRegIndex h with
+        | none => ⟨.err E_hard_reg, 0, ds⟩
+        | some i =>
+          if !hardRegTypeOk i rt then ⟨.err E_hard_reg, 0, ds⟩
+          else if hardRegFixed i then ⟨.err E_hard_reg, 0, ds⟩
+          else
+            match ds.find? (fun d => d.hard == some h) with
+            | some d => if d.ty != rt then ⟨.err E_repeated_decl, 0, ds⟩ else ⟨.ok, d.reg, ds⟩
+            | none => fresh
+
 /-- argument registers created by `new_func_arr`, in order -/
 def declArgs : List (List Char) → List (List Char) → Verdict
   | _, [] => .ok
